@@ -9,6 +9,12 @@ import json as _json
 import operator
 import pickle as _pickle
 
+_LRU = {}      # emulated functools.lru_cache contents of the current path
+
+
+def reset_path_state():
+    _LRU.clear()
+
 
 def install():
     from crosshair.core import register_patch, deep_realize, python_type
@@ -136,6 +142,31 @@ def install():
         from crosshair.core import realize
         return _orig_bit_length(realize(self))
     layered[int.bit_length] = _bit_length
+
+    # functools.lru_cache: CrossHair bypasses every cache (the wrapped function runs on each call), which would
+    # hide a defect that consists of caching something that must be fresh.  Model: a faithful per-path cache for
+    # calls whose arguments are all concrete (the cache is empty at the start of every path = process start);
+    # calls with symbolic arguments keep CrossHair's behaviour.
+    from functools import _lru_cache_wrapper
+
+    def _cached_call(self, *a, **kw):
+        with NoTracing():
+            concrete = not any(isinstance(v, CrossHairValue) for v in list(a) + list(kw.values()))
+            key = None
+            if concrete:
+                try:
+                    key = (id(self), a, tuple(sorted(kw.items())))
+                    hash(key)
+                except TypeError:
+                    key = None
+            if key is not None and key in _LRU:
+                return _LRU[key]
+        r = self.__wrapped__(*a, **kw)
+        if key is not None:
+            with NoTracing():
+                _LRU[key] = r
+        return r
+    layered[_lru_cache_wrapper.__call__] = _cached_call
 
     _orig_dumps = _pickle.dumps
 
